@@ -36,3 +36,50 @@ pub fn find(name: &str) -> Option<&'static RollFn> {
 /// non-collinear, non-monotone value patterns for mask / backend matrices
 pub const VALS_A: &[&str] = &["1", "4", "2", "8", "5", "7", "3", "6", "9", "2", "7", "1"];
 pub const VALS_B: &[&str] = &["2", "1", "5", "3", "8", "4", "9", "7", "6", "3", "1", "8"];
+
+/// Per-position relative tolerance for cancellation-prone closed forms.
+/// The one-pass formulas compute `var = E[x^2] - mean^2` (and higher central moments likewise):
+/// with exact power sums the only error is the rounding of the final operations, amplified by
+/// the conditioning `kappa = E[x^2] / var` of the window: relative error ~ eps * kappa^(pow/2).
+/// Returns `1e-9 + 256 * 2^-52 * kappa^(pow/2)` per output position for entry points with
+/// `pow >= 2` (kappa taken over both series for two-series functions), None otherwise.
+pub fn cond_tols(r: &crate::proto::Req) -> Option<Vec<f64>> {
+    let f = find(&r.f)?;
+    if f.pow < 2 || !r.has("w") {
+        return None;
+    }
+    let w = r.usize("w").max(1);
+    let xs = r.series("xs");
+    let ys = if f.arity == 2 { r.series("ys") } else { vec![] };
+    let kappa = |v: &[Option<f64>], mask: &[bool]| -> f64 {
+        let vals: Vec<f64> = v.iter().zip(mask.iter()).filter(|(_, m)| **m).filter_map(|(x, _)| *x).collect();
+        let n = vals.len() as f64;
+        if vals.len() < 2 {
+            return 1.0;
+        }
+        let mut s1 = 0.0;
+        let mut s2 = 0.0;
+        for x in &vals {
+            s1 += x;
+            s2 += x * x;
+        }
+        let ex2 = s2 / n;
+        let var = ex2 - (s1 / n) * (s1 / n);
+        if var <= 0.0 || ex2 <= 0.0 { 1.0 } else { (ex2 / var).max(1.0) }
+    };
+    let mut out = Vec::with_capacity(xs.len());
+    for i in 0..xs.len() {
+        let lo = (i + 1).saturating_sub(w);
+        let wx = &xs[lo..=i];
+        let k = if f.arity == 2 && ys.len() == xs.len() {
+            let wy = &ys[lo..=i];
+            let mask: Vec<bool> = wx.iter().zip(wy.iter()).map(|(a, b)| a.is_some() && b.is_some()).collect();
+            kappa(wx, &mask).max(kappa(wy, &mask))
+        } else {
+            let mask = vec![true; wx.len()];
+            kappa(wx, &mask)
+        };
+        out.push(1e-9 + 256.0 * f64::EPSILON * k.powf(f.pow as f64 / 2.0));
+    }
+    Some(out)
+}
